@@ -12,6 +12,8 @@ open Ldk.OnchainFailed
            rtu = `src,...` | `-`                                roc = `idx:hasPreimage01,...` | `-`
          answer: `failed <src,...|->` (sorted, without duplicates: the Rust result is a map)
          acur <curCp|-> <prevCp|-> <cpc> <cpp> <rtu>   (`get_all_current_outbound_htlcs`): `listed <src,...|->`
+         rout <persisted parts> <sources listed with a preimage> <inMap01 of the channel> <1 iff the payment has another part on an OPEN channel> <the 13 ocf fields>
+           (`ChannelManager::read` for one payment: `outcome sent|failed|pending` = restartOutcome)
     `reset` answers `ok`. -/
 
 def optNat (s : String) : Option Nat := if s == "-" || s == "x" then none else some (nat! s)
@@ -61,6 +63,32 @@ def c03chain : Drv where
           resolvedOnChain := parseRoc roc }
       let r := sortDedup (onchainFailed m)
       ((), "failed " ++ (if r.isEmpty then "-" else String.intercalate "," (r.map toString)))
+    | ["rout", persisted, pre, inMap0, extraOpen, best, fsc, aw, cur, prev, cpc, cpp, hct, hc, hpt, hp, rtu, roc] =>
+      let m : Mon :=
+        { best := nat! best
+          fundingSpendConfirmed := optNat fsc
+          awaiting := parseAw aw
+          curCp := optNat cur
+          prevCp := optNat prev
+          cpCur := parseHtlcs cpc
+          cpPrev := parseHtlcs cpp
+          holderCurTxid := nat! hct
+          holderCur := parseHtlcs hc
+          holderPrev := (optNat hpt).map (fun t => (t, parseHtlcs hp))
+          resolvedToUser := (csvOf rtu).map (fun x => nat! x)
+          resolvedOnChain := parseRoc roc }
+      -- the theorems' ChanView is PER PAYMENT: the monitor's lists restricted to the payment's own sources (decisions about a source
+      -- never depend on other sources: find is by source, the resolved filter by output index, both kept)
+      let parts := (csvOf persisted).map (fun x => nat! x)
+      let mine (h : Htlc) : Bool := match h.src with | some s => parts.contains s | none => true
+      let m : Mon := { m with cpCur := m.cpCur.filter mine, cpPrev := m.cpPrev.filter mine, holderCur := m.holderCur.filter mine,
+                              holderPrev := m.holderPrev.map (fun p => (p.1, p.2.filter mine)) }
+      let emptyMon : Mon := { m with curCp := none, prevCp := none, cpCur := [], cpPrev := [], fundingSpendConfirmed := none, awaiting := [] }
+      let vs : List ChanView := { inMap := inMap0 == "1", mon := m, preimages := (csvOf pre).map (fun x => nat! x) } ::
+        (if extraOpen == "1" then [{ inMap := true, mon := emptyMon, preimages := [] }] else [])
+      let o := match restartOutcome ((csvOf persisted).map (fun x => nat! x)) vs with
+        | .sent => "sent" | .failed => "failed" | .pending => "pending"
+      ((), "outcome " ++ o)
     | ["acur", cur, prev, cpc, cpp, rtu] =>
       let m : Mon :=
         { best := 0
